@@ -210,6 +210,17 @@ class Law:
         out.exact_support, out.loose, out.p_slack = True, True, 0.0
         return out
 
+    def affine_same_family(self, a: float, b: float) -> "Law":
+        """a*X + b with a > 0 stays in the family for Uniform, Normal and Exponential laws."""
+        q = self.q
+        if self.family == "Uniform":
+            return Law("Uniform", {"a": a * q["a"] + b, "w": a * q["w"]})
+        if self.family == "Normal":
+            return Law("Normal", {"mu": a * q["mu"] + b, "sigma": a * q["sigma"]})
+        if self.family == "Exponential":
+            return Law("Exponential", {"rate": q["rate"] / a, "loc": a * q["loc"] + b})
+        raise AssertionError(self.family)
+
     def affine(self, a: float, b: float) -> "Law":
         """The law of a*X + b."""
         base = self
@@ -281,7 +292,25 @@ PROBS = st.one_of(
 @st.composite
 def ot_option(draw, family: str, q: dict):
     """None, a truncation (families with closed-form truncated moments) or an affine transformation."""
-    kind = draw(st.sampled_from(["none", "truncate", "truncate", "affine"] if family in ("Normal", "Uniform", "Exponential") else ["none", "none", "affine"]))
+    kind = draw(st.sampled_from(["none", "truncate", "truncate", "affine", "affine_truncate", "affine_truncate"] if family in ("Normal", "Uniform", "Exponential") else ["none", "none", "affine"]))
+    if kind == "affine_truncate":
+        # "x+b" / "a*x" / "a*x+b" with a > 0, then a truncation whose bounds are valid for the TRANSFORMED variable
+        a, b = draw(st.sampled_from([(1.0, 2.0), (1.0, -3.5), (2.0, 0.0), (0.5, 0.0), (3.0, 1.0), (10.0, -2.5)]))
+        image = Law(family, q).affine_same_family(a, b)
+        side = draw(st.sampled_from(["both", "lower", "upper"]))
+        if family == "Normal":
+            z1, z2 = sorted(draw(st.lists(st.sampled_from([-2.0, -1.0, -0.5, 0.0, 0.5, 1.0, 2.0]), min_size=2, max_size=2, unique=True)))
+            lo, hi = image.mean + image.std * z1, image.mean + image.std * z2
+        elif family == "Uniform":
+            # strictly inside: OpenTURNS reports the support of a transformed bounded law shrunk by 1e-12, so a bound
+            # equal to the analytical end is rejected by gemseo's "within the current bounds" test (ValueError)
+            f1, f2 = sorted(draw(st.lists(st.sampled_from([0.05, 0.1, 0.25, 0.5, 0.75, 0.9]), min_size=2, max_size=2, unique=True)))
+            width = image.hi - image.lo
+            lo, hi = image.lo + f1 * width, min(image.lo + f2 * width, image.hi)
+        else:
+            t1, t2 = sorted(draw(st.lists(st.sampled_from([0.05, 0.1, 0.5, 1.0, 2.0, 4.0]), min_size=2, max_size=2, unique=True)))
+            lo, hi = image.lo + t1 * image.std, image.lo + t2 * image.std
+        return {"kind": "affine_truncate", "a": a, "b": b, "lower": None if side == "upper" else lo, "upper": None if side == "lower" else hi}
     if kind == "truncate" and family in ("Normal", "Uniform", "Exponential"):
         side = draw(st.sampled_from(["both", "lower", "upper"]))
         # a bound exactly equal to 0.0 with the other one absent (0.0 is a bound like any other), when 0 splits the mass
@@ -349,18 +378,28 @@ def space_cases(draw):
         variables[draw(st.integers(0, n_vars - 1))] = {"kind": "random", "name": names[0] + "r", "size": 1, "family": family, "how": "variable", "q": [draw(law_params(family))]}
     d = sum(v["size"] for v in variables)
     n_points = draw(st.integers(1, 3))
-    op = draw(st.sampled_from(["none", "remove", "remove", "filter", "filter_copy", "add"]))
-    edit = {"op": op}
-    if op in ("remove", "filter", "filter_copy"):
-        edit["var"] = draw(st.integers(0, 3))
-        edit["keep"] = draw(st.lists(st.booleans(), min_size=4, max_size=4))
-    elif op == "add":
-        family = draw(st.sampled_from(SPACE_FAMILIES))
-        size = draw(st.integers(1, 2))
-        edit["new"] = {"kind": "random", "name": "w_new", "size": size, "family": family, "how": "variable", "q": [draw(law_params(family))]}
-        edit["u_new"] = [draw(PROBS) for _ in range(3)]
+    edits = []
+    for k in range(draw(st.integers(0, 3))):
+        op = draw(st.sampled_from(["remove", "filter", "filter_copy", "add", "add_det", "rename", "rename", "rebuild"]))
+        edit = {"op": op, "var": draw(st.integers(0, 5))}
+        if op in ("filter", "filter_copy"):
+            edit["keep"] = draw(st.lists(st.booleans(), min_size=4, max_size=4))
+        elif op == "add":
+            family = draw(st.sampled_from(SPACE_FAMILIES))
+            edit["new"] = {"kind": "random", "name": f"w_new{k}", "size": draw(st.integers(1, 2)), "family": family, "how": "variable", "q": [draw(law_params(family))]}
+            edit["u_new"] = [draw(PROBS) for _ in range(3)]
+        elif op == "add_det":
+            size = draw(st.integers(1, 2))
+            edit["new"] = {"kind": "det", "name": f"w_new{k}", "size": size, "lb": [draw(LOC) for _ in range(size)], "w": [draw(WIDTH) for _ in range(size)]}
+            edit["u_new"] = [draw(PROBS) for _ in range(3)]
+        edits.append(edit)
+        if op == "rename" and draw(st.booleans()):
+            edits.append({"op": "rebuild", "var": 0})  # renaming alone never rebuilds the joint distribution
+    copula = draw(st.sampled_from([None, None, {"kind": "normal", "rho": 0.9}, {"kind": "normal", "rho": -0.8}, {"kind": "normal", "rho": 0.7},
+                                   {"kind": "clayton", "theta": 5.0}, {"kind": "clayton", "theta": 2.0}]))
     return {
-        "lib": draw(st.sampled_from(["SP", "OT"])), "variables": variables, "edit": edit,
+        "lib": draw(st.sampled_from(["SP", "OT"])), "variables": variables, "edits": edits,
+        "copula": copula, "n_copula": draw(st.integers(400, 600)),
         "u": [[draw(PROBS) for _ in range(d)] for _ in range(n_points)],
         "n": draw(st.integers(50, 400)), "prob": draw(st.sampled_from([0.5, 0.1, 0.25, 0.9, 0.05, 0.99])),
         "rng": draw(st.integers(0, 2**31 - 2)),
@@ -417,9 +456,15 @@ def build_distribution(family: str, q: dict, lib: str, generic: bool, option: di
     option = option or {"kind": "none"}
     if option["kind"] == "truncate":
         extra = {"lower_bound": option["lower"], "upper_bound": option["upper"]}
-    elif option["kind"] == "affine":
+    elif option["kind"] in ("affine", "affine_truncate"):
         a, b = option["a"], option["b"]
         extra = {"transformation": f"{a!r}*x+{b!r}" if b >= 0 else f"{a!r}*x-{-b!r}"}
+        if option["kind"] == "affine_truncate":
+            if a == 1.0:
+                extra["transformation"] = f"x+{b!r}" if b >= 0 else f"x-{-b!r}"
+            elif b == 0.0:
+                extra["transformation"] = f"{a!r}*x"
+            extra.update(lower_bound=option["lower"], upper_bound=option["upper"])
     if generic:
         name, parameters = generic_args(family, q, lib)
         return factory.create(f"{lib}Distribution", interfaced_distribution=name, parameters=parameters, **extra)
@@ -433,6 +478,13 @@ def reference(family: str, q: dict, option: dict | None = None) -> Law:
         return law.truncated(option["lower"], option["upper"])
     if option["kind"] == "affine":
         return law.affine(option["a"], option["b"])
+    if option["kind"] == "affine_truncate":
+        out = law.affine_same_family(option["a"], option["b"]).truncated(option["lower"], option["upper"])
+        # OpenTURNS truncates its discretised composite law: same slack as for transformed laws, and only a
+        # numerical range on a side that stays open
+        out.p_slack = 1e-4
+        out.exact_support = option["lower"] is not None and option["upper"] is not None
+        return out
     return law
 
 
@@ -675,6 +727,20 @@ def check_space_state(p, ctx, space, variables, laws_per_variable, U, n, where: 
         offset += sizes[name]
     if not random_laws:
         return None, random_names, sizes, start
+    # the joint distribution lists the marginals in the order of the uncertain variables
+    joint = space.distribution
+    jm, js = np.asarray(joint.mean, dtype=float).ravel(), np.asarray(joint.standard_deviation, dtype=float).ravel()
+    jsup = np.asarray(joint.support, dtype=float)
+    ctx.check(jm.shape == (len(random_laws),) and js.shape == jm.shape and jsup.shape == (len(random_laws), 2), "space:joint",
+              f"{where}: joint distribution of dimension {jm.shape}, {len(random_laws)} random components")
+    for c, law in enumerate(random_laws):
+        name = next(nm for nm in random_names if start[nm] <= c < start[nm] + sizes[nm])
+        mtol = 1e-9 * law.std + 8 * EPS * abs(law.mean)
+        btol = 8 * EPS * max([1.0] + [abs(e) for e in (law.lo, law.hi) if math.isfinite(e)])
+        ctx.check(abs(jm[c] - law.mean) <= mtol and abs(js[c] - law.std) <= mtol, "space:joint",
+                  f"{where}: component {c} of the joint distribution ({name}) has mean {jm[c]!r} and std {js[c]!r}; the law of {name} has {law.mean!r} and {law.std!r}")
+        ctx.check(close(jsup[c, 0], law.lo, btol) and close(jsup[c, 1], law.hi, btol), "space:joint",
+                  f"{where}: component {c} of the joint distribution ({name}) has support {jsup[c].tolist()}, the law of {name} [{law.lo}, {law.hi}]")
     samples = np.asarray(space.compute_samples(n), dtype=float)
     ctx.check(samples.shape == (n, len(random_laws)), "space:samples", f"{where}: compute_samples({n}) has shape {samples.shape}, expected {(n, len(random_laws))}")
     for c, law in enumerate(random_laws):
@@ -696,9 +762,8 @@ def check_space_state(p, ctx, space, variables, laws_per_variable, U, n, where: 
     return samples, random_names, sizes, start
 
 
-def apply_edit(p, space, variables, laws, U):
-    """Apply the drawn edit to the real space and to the reference; returns (space, variables, laws, U, label)."""
-    edit = p.get("edit") or {"op": "none"}
+def apply_edit(p, space, variables, laws, U, edit):
+    """Apply one edit to the real space and to the reference; returns (space, variables, laws, U, label) or None."""
     op, n_vars = edit["op"], len(variables)
     widths = [v["size"] for v in variables]
     offsets = np.concatenate([[0], np.cumsum(widths)]).astype(int)
@@ -711,20 +776,75 @@ def apply_edit(p, space, variables, laws, U):
         gone = edit["var"] % n_vars
         space.remove_variable(variables[gone]["name"])
         keep = [i for i in range(n_vars) if i != gone]
-        return space, [variables[i] for i in keep], [laws[i] for i in keep], columns(keep), f"after remove_variable({variables[gone]['name']})"
+        return space, [variables[i] for i in keep], [laws[i] for i in keep], columns(keep), f"remove_variable({variables[gone]['name']})"
     if op in ("filter", "filter_copy") and n_vars >= 2:
         keep = [i for i in range(n_vars) if edit["keep"][i % len(edit["keep"])]]
         if not keep or len(keep) == n_vars:
             keep = [i for i in range(n_vars) if i != edit["var"] % n_vars]
         kept_names = [variables[i]["name"] for i in keep]
         out = space.filter(kept_names, copy=op == "filter_copy")
-        return out, [variables[i] for i in keep], [laws[i] for i in keep], columns(keep), f"after filter({kept_names}, copy={op == 'filter_copy'})"
-    if op == "add":
+        return out, [variables[i] for i in keep], [laws[i] for i in keep], columns(keep), f"filter({kept_names}, copy={op == 'filter_copy'})"
+    if op in ("add", "add_det"):
         v = edit["new"]
+        if any(w["name"] == v["name"] for w in variables):
+            return None
         new_laws = add_to_space(space, p["lib"], v)
         extra = np.array([[edit["u_new"][(r + i) % len(edit["u_new"])] for i in range(v["size"])] for r in range(U.shape[0])], dtype=float)
-        return space, [*variables, v], [*laws, new_laws], np.hstack([U, extra]), f"after adding the random variable {v['name']}"
+        return space, [*variables, v], [*laws, new_laws], np.hstack([U, extra]), f"adding the {'random' if v['kind'] == 'random' else 'deterministic'} variable {v['name']}"
+    if op == "rename":
+        i = edit["var"] % n_vars
+        old = variables[i]["name"]
+        new = old + "_r"
+        if any(w["name"] == new for w in variables):
+            return None
+        space.rename_variable(old, new)
+        renamed = [dict(v, name=new) if j == i else v for j, v in enumerate(variables)]
+        return space, renamed, laws, U, f"rename_variable({old}, {new})"
+    if op == "rebuild" and any(v["kind"] == "random" for v in variables):
+        space.build_joint_distribution()
+        return space, variables, laws, U, "build_joint_distribution()"
     return None
+
+
+def kendall_tau(x: np.ndarray, y: np.ndarray) -> float:
+    dx = np.sign(x[:, None] - x[None, :])
+    dy = np.sign(y[:, None] - y[None, :])
+    n = x.size
+    return float((dx * dy).sum() / (n * (n - 1)))
+
+
+def check_copula(p, ctx, space, variables, laws):
+    """A dependent copula changes the dependence of the samples, not their marginal laws."""
+    import openturns
+
+    random_laws = [law for v, group in zip(variables, laws) if v["kind"] == "random" for law in group]
+    d = len(random_laws)
+    spec = p.get("copula")
+    if spec is None or p["lib"] != "OT" or d < 2:
+        return
+    if spec["kind"] == "clayton" and d == 2:
+        copula, tau = openturns.ClaytonCopula(spec["theta"]), spec["theta"] / (spec["theta"] + 2.0)
+    else:
+        rho = spec.get("rho", 0.9)
+        matrix = openturns.CorrelationMatrix(d)
+        matrix[0, 1] = rho
+        copula, tau = openturns.NormalCopula(matrix), 2.0 / math.pi * math.asin(rho)
+    space.build_joint_distribution(copula)
+    n = p["n_copula"]
+    samples = np.asarray(space.compute_samples(n), dtype=float)
+    ctx.check(samples.shape == (n, d), "space:copula", f"with a copula compute_samples({n}) has shape {samples.shape}, expected {(n, d)}")
+    for c, law in enumerate(random_laws):
+        col = samples[:, c]
+        ctx.check(bool(np.all((col >= law.lo) & (col <= law.hi))), "space:copula", f"with a copula, column {c}: sample outside the support [{law.lo}, {law.hi}]")
+        dn = kolmogorov(col, law)
+        ctx.check(dn < 4.0 / math.sqrt(n), "space:copula", f"with a copula, column {c} ({law.family} {law.q}) no longer follows its marginal law: Kolmogorov distance {dn:.4f}")
+    # Kendall's tau is a U-statistic with a kernel in [-1, 1]: Hoeffding gives P(|tau_n - tau| >= t) <= 2 exp(-floor(n/2) t^2 / 2),
+    # below 1e-9 for t = sqrt(2 ln(2e9) / floor(n/2)), whatever the marginal laws
+    band = math.sqrt(2.0 * math.log(2e9) / (n // 2))
+    got = kendall_tau(samples[:, 0], samples[:, 1])
+    _track(ctx, "max_kendall_error_over_band", abs(got - tau) / band)
+    ctx.check(abs(got - tau) <= band, "space:copula", f"Kendall's tau of the first two random components is {got:.3f}; the {spec['kind']} copula has {tau:.3f} (band {band:.3f}, {n} samples)")
+    ctx.cls(f"copula:{spec['kind'] if spec['kind'] == 'clayton' and d == 2 else 'normal'}")
 
 
 def case_space(p, ctx):
@@ -738,16 +858,31 @@ def case_space(p, ctx):
     samples, random_names, sizes, start = state
     # ---- empirical statistics on these samples
     check_statistics(p, ctx, samples, random_names, sizes, start)
-    # ---- a drawn edit of the space, then the same oracles against the edited reference
-    edited = apply_edit(p, space, variables, laws, U)
-    if edited is not None:
-        space2, variables2, laws2, U2, label = edited
-        removed_random = sum(v["kind"] == "random" for v in variables) - sum(v["kind"] == "random" for v in variables2)
-        if check_space_state(p, ctx, space2, variables2, laws2, U2, max(50, p["n"] // 2), label) is None:
+    # ---- a drawn history of edits; after each one the same oracles against the edited reference
+    edits = p.get("edits") or ([p["edit"]] if p.get("edit", {}).get("op", "none") != "none" else [])
+    label, renamed_before = "", False
+    for edit in edits:
+        edited = apply_edit(p, space, variables, laws, U, edit)
+        if edited is None:
+            continue
+        n_random_before = sum(v["kind"] == "random" for v in variables)
+        randoms = [v["name"] for v in variables if v["kind"] == "random"]
+        target = variables[edit["var"] % len(variables)]["name"]
+        space, variables, laws, U, step = edited
+        label = (label + "; " if label else "after ") + step
+        if check_space_state(p, ctx, space, variables, laws, U, 50, label) is None:
             return
-        ctx.cls(f"edit:{p['edit']['op']}")
-        if removed_random > 0 and any(v["kind"] == "random" for v in variables2):
+        ctx.cls(f"edit:{edit['op']}")
+        n_random = sum(v["kind"] == "random" for v in variables)
+        if n_random < n_random_before and n_random:
             ctx.cls("edit_removes_a_random_variable_among_several")
+        if renamed_before and edit["op"] in ("add", "remove", "filter", "filter_copy", "rebuild") and n_random >= 2:
+            ctx.cls("joint_rebuilt_after_renaming_a_random_variable")
+        if edit["op"] == "rename" and target in randoms[:-1]:
+            renamed_before = True  # the renamed random variable keeps its rank but its dictionary entry moves last
+    if renamed_before and p.get("copula") and p["lib"] == "OT" and sum(v["kind"] == "random" for v in variables) >= 2:
+        ctx.cls("joint_rebuilt_after_renaming_a_random_variable")
+    check_copula(p, ctx, space, variables, laws)
     d = sum(len(g) for g in laws)
     kinds = {v["kind"] for v in p["variables"]}
     ctx.cls(f"space:{p['lib']}", f"space_dim:{d}")
@@ -756,7 +891,7 @@ def case_space(p, ctx):
             ctx.cls(f"space_family:{v['family']}", f"space_how:{v['how']}")
     if len(kinds) == 2:
         ctx.cls("mixed_random_deterministic", "nontrivial")
-        ctx.nontriv(("space", p["lib"], p["variables"], p["u"], p.get("edit")))
+        ctx.nontriv(("space", p["lib"], p["variables"], p["u"], edits, p.get("copula")))
         if p["variables"][0]["kind"] == "det":
             ctx.cls("deterministic_variable_first")
     if any(v["size"] > 1 for v in p["variables"] if v["kind"] == "random"):
